@@ -101,6 +101,12 @@ fn pixels_of_mut(bytes: &mut [u8]) -> &mut [I32] {
 fn fixed(tier: Tier) -> Vec<Vec<u8>> {
     let max = if tier == Tier::Thorough { 20 } else { 8 };
     let mut v = Vec::new();
+    // views of extent u32::MAX x 0 / 0 x u32::MAX (no pixels, no memory): part-size arithmetic at the top of the range
+    for kind in [1u8, 2, 6] {
+        for code in [250u8, 251] {
+            v.push(vec![0xEE, 0, kind, code, 0, 0xEE]);
+        }
+    }
     for m in 0..2u8 {
         let kinds = if m == 0 { SHARED_KINDS } else { MUT_KINDS };
         for k in 0..kinds {
@@ -539,6 +545,19 @@ fn all_reqs(w: u32, h: u32) -> Vec<Req> {
     let mut v = Vec::new();
     for by_width in [false, true] {
         let extent = if by_width { w } else { h };
+        // arguments at the top of the u32 range (always invalid on these small views)
+        for (start, size, parts) in [
+            (u32::MAX, 1, 1),
+            (u32::MAX - 1, 2, 1),
+            (1 << 31, extent.max(1), 1),
+            (0, u32::MAX, 1),
+            (1, u32::MAX, 2),
+            (0, extent.max(1), u32::MAX),
+            (u32::MAX, u32::MAX, u32::MAX),
+            (u32::MAX - extent, extent.max(1), 1),
+        ] {
+            v.push(Req { by_width, start, size, parts });
+        }
         for size in 1..=extent + 1 {
             for start in 0..=extent + 1 {
                 for parts in 1..=size + 1 {
@@ -643,6 +662,58 @@ fn enumerate(mutable: bool, kind: u8, w: u32, h: u32) -> Outcome {
     o
 }
 
+/// Views without pixels whose height (or width) is u32::MAX: sizes, order and count of the parts for bands at the top of the range.
+fn enumerate_extreme(kind: u8, tall: bool) -> Outcome {
+    let (w, h) = if tall { (0, u32::MAX) } else { (u32::MAX, 0) };
+    let name = SHARED_NAMES[kind as usize % 7];
+    let mut o = Outcome::new(format!("splits of a {}x{} {} view (no pixels): bands and part counts at the top of the u32 range", w, h, name));
+    o.evals = 0;
+    let m = u32::MAX;
+    let mut reqs = Vec::new();
+    for parts in [1u32, 2, 3, 5, 64, 255, 1000] {
+        for size in [m, m - 1, m - parts + 1, m - parts, m / 2 + 1, 1 << 31, parts, parts + 1] {
+            for start in [0u32, 1, m.wrapping_sub(size), m.wrapping_sub(size).wrapping_add(1), m] {
+                if size >= 1 {
+                    reqs.push(Req { by_width: !tall, start, size, parts });
+                }
+            }
+        }
+    }
+    let mut count = 0u64;
+    let empty: [I32; 0] = [];
+    let res = catch(|| -> Result<(), String> {
+        let g = Geo { ox: 0, oy: 0, pw: w, w, h };
+        for r in &reqs {
+            let one = match kind {
+                1 => {
+                    let v = TypedImageRef::<I32>::new(w, h, &empty).map_err(|e| format!("{:?}", e))?;
+                    catch(|| shared_leaf(&v, &g, r, &mut count)).unwrap_or_else(|p| Err(format!("panic: {}", p)))
+                }
+                2 => {
+                    let p = TypedImageRef::<I32>::new(w, h, &empty).map_err(|e| format!("{:?}", e))?;
+                    let v = TypedCroppedImage::from_ref(&p, 0, 0, w, h).map_err(|e| format!("{:?}", e))?;
+                    catch(|| shared_leaf(&v, &g, r, &mut count)).unwrap_or_else(|p| Err(format!("panic: {}", p)))
+                }
+                _ => {
+                    let v = UserView { w, h, px: &empty };
+                    catch(|| shared_leaf(&v, &g, r, &mut count)).unwrap_or_else(|p| Err(format!("panic: {}", p)))
+                }
+            };
+            one.map_err(|e| format!("{} on the {}x{} {} view: {}", r.desc(), w, h, name, e))?;
+        }
+        Ok(())
+    });
+    match res {
+        Ok(Ok(())) => {}
+        Ok(Err(e)) => o.fail(e),
+        Err(p) => o.fail(format!("panic: {}", p)),
+    }
+    o.evals = count;
+    o.bulk_nontrivial = count;
+    o.label_n("enumerated:extreme-extent", count);
+    o
+}
+
 fn single(mutable: bool, kind: u8, w: u32, h: u32, r: Req, second: u8, depth: u32) -> Outcome {
     let name = if mutable { MUT_NAMES[kind as usize % 4] } else { SHARED_NAMES[kind as usize % 7] };
     let mut o = Outcome::new(format!(
@@ -684,6 +755,9 @@ fn single(mutable: bool, kind: u8, w: u32, h: u32, r: Req, second: u8, depth: u3
 }
 
 fn check(tape: &[u8], _ctx: &Ctx) -> Outcome {
+    if tape.len() == 6 && tape[0] == 0xEE && tape[5] == 0xEE && tape[1] == 0 && (tape[3] == 250 || tape[3] == 251) && tape[2] < SHARED_KINDS {
+        return enumerate_extreme(tape[2], tape[3] == 250);
+    }
     if tape.len() == 6 && tape[0] == 0xEE && tape[5] == 0xEE && tape[1] < 2 && tape[3] <= 20 && tape[4] <= 20 {
         let mutable = tape[1] == 1;
         let kinds = if mutable { MUT_KINDS } else { SHARED_KINDS };
